@@ -1,5 +1,503 @@
-From Coq Require Import List ZArith QArith Bool Arith Lia.
+(* Lemmas about Disc/FermiModel.v (property C53). *)
+From Coq Require Import List ZArith QArith Bool Arith Lia Lqa Setoid Morphisms.
 From PLV Require Import Disc.FermiModel.
 Import ListNotations.
-Lemma fw_image_nil : forall m n, fw_image m n [] = Some (ident n).
-Proof. reflexivity. Qed.
+Local Open Scope nat_scope.
+
+Ltac Zify.zify_post_hook ::= Z.to_euclidean_division_equations.
+
+(* ------------------------------------------------------------------ Pauli words *)
+Lemma pauli_eqb_eq : forall a b, pauli_eqb a b = true <-> a = b.
+Proof. destruct a, b; cbn; split; intro H; try reflexivity; try discriminate. Qed.
+
+Lemma weqb_eq : forall a b, weqb a b = true <-> a = b.
+Proof.
+  induction a as [|x r IH]; destruct b as [|y s]; cbn; split; intro H; try reflexivity; try discriminate.
+  - apply andb_true_iff in H. destruct H as [H1 H2]. apply pauli_eqb_eq in H1. apply IH in H2. congruence.
+  - inversion H; subst. apply andb_true_iff. split; [apply pauli_eqb_eq | apply IH]; reflexivity.
+Qed.
+
+Lemma weqb_refl : forall a, weqb a a = true.
+Proof. intro a. apply weqb_eq. reflexivity. Qed.
+
+(* (ab)^dagger = b a for Hermitian single-qubit Paulis: same letter, conjugate phase *)
+Lemma pmul_swap : forall a b, snd (pmul b a) = snd (pmul a b) /\ fst (pmul b a) = ((- fst (pmul a b)) mod 4)%Z.
+Proof. destruct a, b; cbn; split; reflexivity. Qed.
+
+Lemma pmul_phase_range : forall a b, (0 <= fst (pmul a b) < 4)%Z.
+Proof. destruct a, b; cbn; lia. Qed.
+
+Lemma wmul_phase_range : forall a b, (0 <= fst (wmul a b) < 4)%Z.
+Proof.
+  induction a as [|x r IH]; destruct b as [|y s]; cbn [wmul fst]; lia.
+Qed.
+
+(* word level (AB)^dagger = B^dagger A^dagger : swapping the factors keeps the word and conjugates the phase *)
+Lemma wmul_swap : forall a b, snd (wmul b a) = snd (wmul a b) /\ fst (wmul b a) = ((- fst (wmul a b)) mod 4)%Z.
+Proof.
+  induction a as [|x r IH]; destruct b as [|y s]; cbn [wmul fst snd]; try (split; reflexivity).
+  destruct (IH s) as [Hw Hk]. destruct (pmul_swap x y) as [Hc Hp].
+  split.
+  - rewrite Hc, Hw. reflexivity.
+  - rewrite Hk, Hp.
+    pose proof (pmul_phase_range x y). pose proof (wmul_phase_range r s). lia.
+Qed.
+
+Lemma wmul_I_l_phase : forall k w, fst (wmul (repeat PI k) w) = 0%Z.
+Proof.
+  induction k as [|k IH]; intro w; cbn [repeat wmul fst]; [reflexivity|].
+  destruct w as [|y s]; cbn [wmul fst snd pmul]; [reflexivity|].
+  rewrite IH. reflexivity.
+Qed.
+
+Lemma wmul_II : forall k, wmul (repeat PI k) (repeat PI k) = (0%Z, repeat PI k).
+Proof.
+  induction k as [|k IH]; cbn [repeat wmul]; [reflexivity|].
+  rewrite IH. reflexivity.
+Qed.
+
+Lemma jw_word_S : forall n p P, jw_word (S n) (S p) P = PZ :: jw_word n p P.
+Proof. intros. unfold jw_word. cbn [repeat app Nat.sub]. reflexivity. Qed.
+
+Lemma jw_word_0 : forall n P, jw_word (S n) 0 P = P :: repeat PI n.
+Proof. intros. unfold jw_word. cbn [repeat app]. do 2 f_equal. lia. Qed.
+
+(* key lemma: Jordan-Wigner strings on different modes p < q overlap non-trivially on the single
+   site p (X or Y against Z), so the phase of their product is odd: they anticommute *)
+Lemma jw_words_phase_odd : forall p n q P R, p < q -> q < n -> (P = PX \/ P = PY) ->
+  let k := fst (wmul (jw_word n p P) (jw_word n q R)) in k = 1%Z \/ k = 3%Z.
+Proof.
+  induction p as [|p IH]; intros n q P R Hpq Hqn HP.
+  - destruct n as [|n]; [lia|]. destruct q as [|q]; [lia|].
+    rewrite jw_word_0. unfold jw_word at 1. cbn [repeat app wmul fst snd].
+    rewrite wmul_I_l_phase.
+    destruct HP; subst P; cbn; lia.
+  - destruct n as [|n]; [lia|]. destruct q as [|q]; [lia|].
+    rewrite !jw_word_S. cbn [wmul fst snd pmul].
+    specialize (IH n q P R ltac:(lia) ltac:(lia) HP). cbn zeta in IH.
+    pose proof (wmul_phase_range (jw_word n p P) (jw_word n q R)).
+    cbn zeta. destruct IH as [E|E]; rewrite E; cbn; lia.
+Qed.
+
+Definition site_word (n p : nat) (P : pauli) : pword := repeat PI p ++ P :: repeat PI (n - p - 1).
+
+Lemma site_word_S : forall n p P, site_word (S n) (S p) P = PI :: site_word n p P.
+Proof. intros. unfold site_word. cbn [repeat app Nat.sub]. reflexivity. Qed.
+
+(* same mode: the Z strings cancel and only the site p survives *)
+Lemma jw_words_same_site : forall p n P R, p < n ->
+  wmul (jw_word n p P) (jw_word n p R) = (fst (pmul P R), site_word n p (snd (pmul P R))).
+Proof.
+  induction p as [|p IH]; intros n P R Hpn.
+  - destruct n as [|n]; [lia|]. rewrite !jw_word_0. unfold site_word. cbn [repeat app wmul Nat.sub].
+    rewrite wmul_II, Nat.sub_0_r. cbn [fst snd].
+    pose proof (pmul_phase_range P R). f_equal. lia.
+  - destruct n as [|n]; [lia|]. rewrite !jw_word_S, site_word_S. cbn [wmul pmul fst snd].
+    rewrite (IH n P R ltac:(lia)). cbn [fst snd].
+    pose proof (pmul_phase_range P R). f_equal. lia.
+Qed.
+
+Lemma site_word_I : forall n p, p < n -> site_word n p PI = repeat PI n.
+Proof.
+  intros n p H. unfold site_word.
+  replace n with (p + S (n - p - 1)) at 2 by lia.
+  rewrite repeat_app. reflexivity.
+Qed.
+
+(* ------------------------------------------------------------------ coefficient functions *)
+Lemma ceq_refl : forall a, ceq a a.
+Proof. intro a; split; reflexivity. Qed.
+Lemma ceq_sym : forall a b, ceq a b -> ceq b a.
+Proof. intros a b [H1 H2]; split; symmetry; assumption. Qed.
+Lemma ceq_trans : forall a b c, ceq a b -> ceq b c -> ceq a c.
+Proof. intros a b c [H1 H2] [H3 H4]; split; etransitivity; eassumption. Qed.
+
+Add Parametric Relation : C ceq
+  reflexivity proved by ceq_refl symmetry proved by ceq_sym transitivity proved by ceq_trans as ceq_rel.
+
+Add Parametric Morphism : cplus with signature ceq ==> ceq ==> ceq as cplus_mor.
+Proof. intros a b [H1 H2] c d [H3 H4]. split; cbn; [rewrite H1, H3 | rewrite H2, H4]; reflexivity. Qed.
+
+Add Parametric Morphism : cmulx with signature ceq ==> ceq ==> ceq as cmulx_mor.
+Proof. intros a b [H1 H2] c d [H3 H4]. split; cbn; rewrite H1, H2, H3, H4; reflexivity. Qed.
+
+Lemma cred_ceq : forall a, ceq (cred a) a.
+Proof. intro a. split; cbn; apply Qred_correct. Qed.
+Lemma cadd_ceq : forall a b, ceq (cadd a b) (cplus a b).
+Proof. intros. unfold cadd. apply cred_ceq. Qed.
+Lemma cmul_ceq : forall a b, ceq (cmul a b) (cmulx a b).
+Proof. intros. unfold cmul. apply cred_ceq. Qed.
+Lemma cplus_0_l : forall a, ceq (cplus c0 a) a.
+Proof. intro a. split; cbn; ring. Qed.
+Lemma cplus_0_r : forall a, ceq (cplus a c0) a.
+Proof. intro a. split; cbn; ring. Qed.
+Lemma cplus_comm : forall a b, ceq (cplus a b) (cplus b a).
+Proof. intros. split; cbn; ring. Qed.
+Lemma cplus_assoc : forall a b c, ceq (cplus a (cplus b c)) (cplus (cplus a b) c).
+Proof. intros. split; cbn; ring. Qed.
+Lemma cmulx_plus_l : forall a b c, ceq (cmulx (cplus a b) c) (cplus (cmulx a c) (cmulx b c)).
+Proof. intros. split; cbn; ring. Qed.
+Lemma cmulx_assoc : forall a b c, ceq (cmulx (cmulx a b) c) (cmulx a (cmulx b c)).
+Proof. intros. split; cbn; ring. Qed.
+Lemma cmulx_0_l : forall c, ceq (cmulx c0 c) c0.
+Proof. intros. split; cbn; ring. Qed.
+
+Lemma czero_ceq : forall c, czero c = true -> ceq c c0.
+Proof.
+  intros c H. unfold czero in H. apply andb_true_iff in H. destruct H as [H1 H2].
+  apply Qeq_bool_iff in H1. apply Qeq_bool_iff in H2. split; assumption.
+Qed.
+
+Lemma coef_app : forall A B w, ceq (coef (A ++ B) w) (cplus (coef A w) (coef B w)).
+Proof.
+  induction A as [|e r IH]; intros B w; cbn [app coef].
+  - symmetry. apply cplus_0_l.
+  - rewrite IH. apply cplus_assoc.
+Qed.
+
+Lemma coef_sins : forall A w c v,
+  ceq (coef (sins w c A) v) (cplus (coef A v) (if weqb w v then c else c0)).
+Proof.
+  induction A as [|e r IH]; intros w c v; cbn [sins coef fst snd].
+  - destruct (weqb w v); cbn [fst snd].
+    + rewrite cadd_ceq. split; cbn; ring.
+    + reflexivity.
+  - destruct (weqb (fst e) w) eqn:E; cbn [coef fst snd].
+    + apply weqb_eq in E. subst w. destruct (weqb (fst e) v).
+      * rewrite cadd_ceq. split; cbn; ring.
+      * split; cbn; ring.
+    + rewrite IH. apply cplus_assoc.
+Qed.
+
+Lemma coef_saccum : forall R acc v, ceq (coef (saccum R acc) v) (cplus (coef acc v) (coef R v)).
+Proof.
+  unfold saccum. induction R as [|e r IH]; intros acc v; cbn [fold_left coef].
+  - symmetry. apply cplus_0_r.
+  - rewrite IH, coef_sins. split; cbn; ring.
+Qed.
+
+Lemma coef_sprune : forall A v, ceq (coef (sprune A) v) (coef A v).
+Proof.
+  induction A as [|e r IH]; intro v; cbn [sprune filter coef]; [reflexivity|].
+  fold (sprune r). destruct (czero (snd e)) eqn:E; cbn [negb coef].
+  - rewrite IH. apply czero_ceq in E. destruct (weqb (fst e) v).
+    + rewrite E, cplus_0_l. reflexivity.
+    + rewrite cplus_0_l. reflexivity.
+  - rewrite IH. reflexivity.
+Qed.
+
+Lemma coef_smul : forall A B v, ceq (coef (smul A B) v) (coef (rmul A B) v).
+Proof. intros. unfold smul. rewrite coef_saccum. cbn [coef]. apply cplus_0_l. Qed.
+
+Lemma coef_sadd : forall A B v, ceq (coef (sadd A B) v) (cplus (coef A v) (coef B v)).
+Proof. intros. unfold sadd. rewrite !coef_saccum. cbn [coef]. rewrite cplus_0_l. reflexivity. Qed.
+
+Lemma coef_anticomm : forall A B v,
+  ceq (coef (anticomm A B) v) (cplus (coef (rmul A B) v) (coef (rmul B A) v)).
+Proof. intros. unfold anticomm. rewrite coef_sprune, coef_sadd, !coef_smul. reflexivity. Qed.
+
+Lemma coef_sscale : forall c A v, ceq (coef (sscale c A) v) (cmulx (coef A v) c).
+Proof.
+  induction A as [|e r IH]; intro v; cbn [sscale map coef fst snd].
+  - symmetry. apply cmulx_0_l.
+  - fold (sscale c r). rewrite IH, cmulx_plus_l. destruct (weqb (fst e) v).
+    + rewrite cmul_ceq. reflexivity.
+    + rewrite cmulx_0_l. reflexivity.
+Qed.
+
+(* soundness of the decision procedure used in the bounded clauses *)
+Lemma sent_eqb_sound : forall A B, sent_eqb A B = true -> sequiv A B.
+Proof.
+  intros A B H v. unfold sent_eqb in H.
+  destruct (sprune (saccum (sscale (cneg c1) B) (saccum A []))) eqn:E; [|discriminate].
+  pose proof (coef_sprune (saccum (sscale (cneg c1) B) (saccum A [])) v) as H1.
+  rewrite E in H1. cbn [coef] in H1.
+  rewrite !coef_saccum, coef_sscale in H1. cbn [coef] in H1.
+  destruct H1 as [Ha Hb]. cbn in Ha, Hb. split; lra.
+Qed.
+
+(* ------------------------------------------------------------------ Jordan-Wigner CAR, all register sizes *)
+Lemma ci_pow_0 : forall c, ci_pow 0 c = c. Proof. reflexivity. Qed.
+Lemma ci_pow_1 : forall c, ci_pow 1 c = (- snd c, fst c)%Q. Proof. reflexivity. Qed.
+Lemma ci_pow_3 : forall c, ci_pow 3 c = (snd c, - fst c)%Q. Proof. reflexivity. Qed.
+
+Lemma ci_pow_cancel : forall k a b, (k = 1 \/ k = 3)%Z ->
+  ceq (cplus (ci_pow k (cmul a b)) (ci_pow ((- k) mod 4) (cmul b a))) c0.
+Proof.
+  intros k a b H.
+  pose proof (cmul_ceq a b) as HX. pose proof (cmul_ceq b a) as HY.
+  revert HX HY. generalize (cmul a b) (cmul b a). intros X Y [H1 H2] [H3 H4].
+  cbn [cmulx fst snd] in H1, H2, H3, H4.
+  destruct H; subst k.
+  - change ((- (1)) mod 4)%Z with 3%Z. rewrite ci_pow_1, ci_pow_3.
+    split; cbn [cplus fst snd c0]; rewrite ?H1, ?H2, ?H3, ?H4; ring.
+  - change ((- (3)) mod 4)%Z with 1%Z. rewrite ci_pow_1, ci_pow_3.
+    split; cbn [cplus fst snd c0]; rewrite ?H1, ?H2, ?H3, ?H4; ring.
+Qed.
+
+Lemma term_cancel : forall (a b : pword) (ca cb : C) v,
+  (fst (wmul a b) = 1 \/ fst (wmul a b) = 3)%Z ->
+  ceq (cplus (if weqb (snd (wmul a b)) v then ci_pow (fst (wmul a b)) (cmul ca cb) else c0)
+             (if weqb (snd (wmul b a)) v then ci_pow (fst (wmul b a)) (cmul cb ca) else c0)) c0.
+Proof.
+  intros a b ca cb v H. destruct (wmul_swap a b) as [Hw Hk]. rewrite Hw, Hk.
+  destruct (weqb (snd (wmul a b)) v).
+  - apply ci_pow_cancel. exact H.
+  - apply cplus_0_l.
+Qed.
+
+Lemma jw_car_lt : forall n p q s t, p < q -> q < n ->
+  forall v, ceq (coef (anticomm (jw_op n (p, s)) (jw_op n (q, t))) v) c0.
+Proof.
+  intros n p q s t Hpq Hqn v. rewrite coef_anticomm. unfold jw_op.
+  cbn [fst snd rmul flat_map map app coef].
+  pose proof (term_cancel (jw_word n p PX) (jw_word n q PX) half half v
+                (jw_words_phase_odd p n q PX PX Hpq Hqn (or_introl eq_refl))) as E1.
+  pose proof (term_cancel (jw_word n p PX) (jw_word n q PY) half (ycoef t) v
+                (jw_words_phase_odd p n q PX PY Hpq Hqn (or_introl eq_refl))) as E2.
+  pose proof (term_cancel (jw_word n p PY) (jw_word n q PX) (ycoef s) half v
+                (jw_words_phase_odd p n q PY PX Hpq Hqn (or_intror eq_refl))) as E3.
+  pose proof (term_cancel (jw_word n p PY) (jw_word n q PY) (ycoef s) (ycoef t) v
+                (jw_words_phase_odd p n q PY PY Hpq Hqn (or_intror eq_refl))) as E4.
+  revert E1 E2 E3 E4.
+  generalize (if weqb (snd (wmul (jw_word n p PX) (jw_word n q PX))) v
+              then ci_pow (fst (wmul (jw_word n p PX) (jw_word n q PX))) (cmul half half) else c0).
+  generalize (if weqb (snd (wmul (jw_word n q PX) (jw_word n p PX))) v
+              then ci_pow (fst (wmul (jw_word n q PX) (jw_word n p PX))) (cmul half half) else c0).
+  generalize (if weqb (snd (wmul (jw_word n p PX) (jw_word n q PY))) v
+              then ci_pow (fst (wmul (jw_word n p PX) (jw_word n q PY))) (cmul half (ycoef t)) else c0).
+  generalize (if weqb (snd (wmul (jw_word n q PY) (jw_word n p PX))) v
+              then ci_pow (fst (wmul (jw_word n q PY) (jw_word n p PX))) (cmul (ycoef t) half) else c0).
+  generalize (if weqb (snd (wmul (jw_word n p PY) (jw_word n q PX))) v
+              then ci_pow (fst (wmul (jw_word n p PY) (jw_word n q PX))) (cmul (ycoef s) half) else c0).
+  generalize (if weqb (snd (wmul (jw_word n q PX) (jw_word n p PY))) v
+              then ci_pow (fst (wmul (jw_word n q PX) (jw_word n p PY))) (cmul half (ycoef s)) else c0).
+  generalize (if weqb (snd (wmul (jw_word n p PY) (jw_word n q PY))) v
+              then ci_pow (fst (wmul (jw_word n p PY) (jw_word n q PY))) (cmul (ycoef s) (ycoef t)) else c0).
+  generalize (if weqb (snd (wmul (jw_word n q PY) (jw_word n p PY))) v
+              then ci_pow (fst (wmul (jw_word n q PY) (jw_word n p PY))) (cmul (ycoef t) (ycoef s)) else c0).
+  intros y4 x4 y3 x3 y2 x2 y1 x1 [A1 B1] [A2 B2] [A3 B3] [A4 B4].
+  cbn [cplus fst snd c0] in *. split; cbn [cplus fst snd c0]; lra.
+Qed.
+
+Lemma jw_car_eq : forall n p s t, p < n ->
+  forall v, ceq (coef (anticomm (jw_op n (p, s)) (jw_op n (p, t))) v) (coef (delta_ident n (xorb s t)) v).
+Proof.
+  intros n p s t Hp v. rewrite coef_anticomm. unfold jw_op.
+  cbn [fst snd rmul flat_map map app coef].
+  rewrite !(jw_words_same_site p n) by assumption. cbn [pmul fst snd].
+  rewrite (site_word_I n p Hp).
+  destruct s, t; cbn [xorb delta_ident ident coef fst snd];
+    generalize (weqb (repeat PI n) v), (weqb (site_word n p PZ) v); intros b1 b2;
+    destruct b1, b2; vm_compute; split; reflexivity.
+Qed.
+
+Lemma coef_anticomm_comm : forall A B v, ceq (coef (anticomm A B) v) (coef (anticomm B A) v).
+Proof. intros. rewrite !coef_anticomm. apply cplus_comm. Qed.
+
+Lemma jw_car_all : forall n p q s t, p < n -> q < n ->
+  sequiv (anticomm (jw_op n (p, s)) (jw_op n (q, t))) (delta_ident n (Nat.eqb p q && xorb s t)).
+Proof.
+  intros n p q s t Hp Hq v.
+  destruct (lt_eq_lt_dec p q) as [[H|H]|H].
+  - replace (Nat.eqb p q) with false by (symmetry; apply Nat.eqb_neq; lia).
+    cbn [andb delta_ident coef]. apply jw_car_lt; assumption.
+  - subst q. rewrite Nat.eqb_refl. cbn [andb]. apply jw_car_eq; assumption.
+  - replace (Nat.eqb p q) with false by (symmetry; apply Nat.eqb_neq; lia).
+    cbn [andb delta_ident coef]. rewrite coef_anticomm_comm. apply jw_car_lt; assumption.
+Qed.
+
+(* ------------------------------------------------------------------ products, sums, scalars, adjoint *)
+Lemma sequence_app : forall {A} (l1 l2 : list (option A)),
+  sequence (l1 ++ l2) = match sequence l1, sequence l2 with Some a, Some b => Some (a ++ b) | _, _ => None end.
+Proof.
+  induction l1 as [|x r IH]; intro l2; cbn [app sequence].
+  - destruct (sequence l2); reflexivity.
+  - destruct x as [x|]; [|reflexivity]. rewrite IH.
+    destruct (sequence r), (sequence l2); reflexivity.
+Qed.
+
+(* the image of a word is the ordered product of the images of its ladder operators *)
+Lemma fw_image_app : forall m n u v,
+  fw_image m n (u ++ v) =
+  match fw_image m n u, sequence (map (op_image m n) v) with
+  | Some A, Some imgs => Some (fold_left smul imgs A)
+  | _, _ => None
+  end.
+Proof.
+  intros. unfold fw_image. rewrite map_app, sequence_app.
+  destruct (sequence (map (op_image m n) u)), (sequence (map (op_image m n) v)); cbn [omap]; try reflexivity.
+  unfold prod_images. rewrite fold_left_app. reflexivity.
+Qed.
+
+Lemma fw_image_snoc : forall m n w l,
+  fw_image m n (w ++ [l]) =
+  match fw_image m n w, op_image m n l with Some A, Some B => Some (smul A B) | _, _ => None end.
+Proof.
+  intros. rewrite fw_image_app. cbn [map sequence].
+  destruct (fw_image m n w), (op_image m n l); reflexivity.
+Qed.
+
+Lemma fw_image_fold : forall m n w imgs, sequence (map (op_image m n) w) = Some imgs ->
+  fw_image m n w = Some (fold_left smul imgs (ident n)).
+Proof. intros m n w imgs H. unfold fw_image. rewrite H. reflexivity. Qed.
+
+Lemma coef_lin : forall l v, ceq (coef (sprune (saccum (fs_raw l) [])) v) (coef (fs_raw l) v).
+Proof. intros. rewrite coef_sprune, coef_saccum. cbn [coef]. apply cplus_0_l. Qed.
+
+Lemma fs_image_add : forall m n S1 S2 A1 A2,
+  fs_image m n S1 = Some A1 -> fs_image m n S2 = Some A2 ->
+  exists A, fs_image m n (S1 ++ S2) = Some A /\ forall v, ceq (coef A v) (cplus (coef A1 v) (coef A2 v)).
+Proof.
+  intros m n S1 S2 A1 A2 H1 H2. unfold fs_image in *. rewrite map_app, sequence_app.
+  destruct (sequence (map _ S1)) as [l1|]; [|discriminate].
+  destruct (sequence (map _ S2)) as [l2|]; [|discriminate].
+  cbn [omap] in *. injection H1 as <-. injection H2 as <-.
+  eexists. split; [reflexivity|]. intro v.
+  rewrite !coef_lin. unfold fs_raw. rewrite flat_map_app, coef_app. reflexivity.
+Qed.
+
+Lemma sequence_scale : forall m n c S,
+  sequence (map (fun fc => omap (fun i => (i, snd fc)) (fw_image m n (fst fc))) (fsscale c S)) =
+  omap (map (fun ic => (fst ic, cmul (snd ic) c)))
+       (sequence (map (fun fc => omap (fun i => (i, snd fc)) (fw_image m n (fst fc))) S)).
+Proof.
+  induction S as [|e r IH]; cbn [fsscale map sequence omap fst snd]; [reflexivity|].
+  fold (fsscale c r). destruct (fw_image m n (fst e)); cbn [omap]; [|reflexivity].
+  rewrite IH.
+  destruct (sequence (map (fun fc => omap (fun i => (i, snd fc)) (fw_image m n (fst fc))) r)); reflexivity.
+Qed.
+
+Lemma coef_fs_raw_scale : forall c l v,
+  ceq (coef (fs_raw (map (fun ic => (fst ic, cmul (snd ic) c)) l)) v) (cmulx (coef (fs_raw l) v) c).
+Proof.
+  induction l as [|ic r IH]; intro v; cbn [map fs_raw flat_map fst snd coef].
+  - symmetry. apply cmulx_0_l.
+  - fold (fs_raw r). fold (fs_raw (map (fun ic => (fst ic, cmul (snd ic) c)) r)).
+    rewrite !coef_app, IH, cmulx_plus_l, !coef_sscale, cmul_ceq, cmulx_assoc. reflexivity.
+Qed.
+
+Lemma fs_image_scale : forall m n c S A, fs_image m n S = Some A ->
+  exists A', fs_image m n (fsscale c S) = Some A' /\ forall v, ceq (coef A' v) (cmulx (coef A v) c).
+Proof.
+  intros m n c S A H. unfold fs_image in *. rewrite sequence_scale.
+  destruct (sequence _) as [l|]; [|discriminate]. cbn [omap] in *. injection H as <-.
+  eexists. split; [reflexivity|]. intro v. rewrite !coef_lin. apply coef_fs_raw_scale.
+Qed.
+
+(* the image of a creation operator is the adjoint of the image of the annihilation operator *)
+Lemma op_image_adj : forall m n p s, op_image m n (p, negb s) = omap sadj (op_image m n (p, s)).
+Proof.
+  intros m n p s. destruct m; unfold op_image.
+  - destruct s; reflexivity.
+  - unfold pt_op. cbn [fst snd]. destruct (Nat.ltb p n); destruct s; reflexivity.
+  - unfold bk_op. cbn [fst snd]. cbv zeta. destruct (negb (Nat.ltb p n)); [reflexivity|].
+    destruct (update_set (S (S n)) p (bin_range n) n), (parity_set (S (S n)) p (bin_range n)),
+      (flip_set (S (S n)) p (bin_range n)); destruct s; reflexivity.
+Qed.
+
+(* ------------------------------------------------------------------ bounded clauses (parity, Bravyi-Kitaev) *)
+Lemma in_all_ops : forall n l, fst l < n -> In l (all_ops n).
+Proof.
+  intros n [p s] H. cbn [fst] in H. unfold all_ops. apply in_flat_map. exists p. split.
+  - apply in_seq. lia.
+  - destruct s; cbn; auto.
+Qed.
+
+Lemma in_all_words : forall ops L w, length w <= L -> Forall (fun l => In l ops) w -> In w (all_words ops L).
+Proof.
+  intros ops. induction L as [|L IH]; intros w Hl Hw.
+  - destruct w; [left; reflexivity | cbn in Hl; lia].
+  - destruct w as [|l r]; cbn [all_words]; [left; reflexivity|].
+    right. apply in_flat_map. inversion Hw; subst. exists l. split; [assumption|].
+    apply in_map. apply IH; [cbn in Hl; lia | assumption].
+Qed.
+
+Lemma car_ok_le6 : forall m n, n <= 6 -> car_ok m n = true.
+Proof.
+  intros m n H. destruct m; do 7 (destruct n as [|n]; [vm_compute; reflexivity|]); lia.
+Qed.
+
+Lemma car_bounded : forall m n l1 l2, n <= 6 -> fst l1 < n -> fst l2 < n ->
+  exists A B, op_image m n l1 = Some A /\ op_image m n l2 = Some B /\
+              sequiv (anticomm A B) (delta_ident n (Nat.eqb (fst l1) (fst l2) && xorb (snd l1) (snd l2))).
+Proof.
+  intros m n l1 l2 Hn H1 H2. pose proof (car_ok_le6 m n Hn) as H. unfold car_ok in H.
+  rewrite forallb_forall in H. specialize (H l1 (in_all_ops n l1 H1)).
+  rewrite forallb_forall in H. specialize (H l2 (in_all_ops n l2 H2)).
+  unfold car_pair_ok in H.
+  destruct (op_image m n l1) as [A|]; [|discriminate]. destruct (op_image m n l2) as [B|]; [|discriminate].
+  exists A, B. split; [reflexivity|]. split; [reflexivity|]. apply sent_eqb_sound. exact H.
+Qed.
+
+Lemma adj_ok_le : forall m n, n <= 5 -> adj_ok m n 3 = true.
+Proof.
+  intros m n H. destruct m; do 6 (destruct n as [|n]; [vm_compute; reflexivity|]); lia.
+Qed.
+
+Lemma adj_bounded : forall m n w, n <= 5 -> length w <= 3 -> Forall (fun l => fst l < n) w ->
+  exists A B, fw_image m n (fadj w) = Some A /\ fw_image m n w = Some B /\ sequiv A (sadj B).
+Proof.
+  intros m n w Hn Hl Hw. pose proof (adj_ok_le m n Hn) as H. unfold adj_ok in H.
+  rewrite forallb_forall in H.
+  assert (In w (all_words (all_ops n) 3)) as Hin.
+  { apply in_all_words; [assumption|]. eapply Forall_impl; [|exact Hw]. intros l; apply in_all_ops. }
+  specialize (H w Hin). unfold adj_word_ok in H.
+  destruct (fw_image m n (fadj w)) as [A|]; [|discriminate]. destruct (fw_image m n w) as [B|]; [|discriminate].
+  exists A, B. split; [reflexivity|]. split; [reflexivity|]. apply sent_eqb_sound. exact H.
+Qed.
+
+Lemma hom_ok_le : forall m n, n <= 4 -> hom_ok m n 2 = true.
+Proof.
+  intros m n H. destruct m; do 5 (destruct n as [|n]; [vm_compute; reflexivity|]); lia.
+Qed.
+
+Lemma hom_bounded : forall m n u v, n <= 4 -> length u <= 2 -> length v <= 2 ->
+  Forall (fun l => fst l < n) u -> Forall (fun l => fst l < n) v ->
+  exists X A B, fw_image m n (fmul u v) = Some X /\ fw_image m n u = Some A /\ fw_image m n v = Some B /\
+                sequiv X (smul A B).
+Proof.
+  intros m n u v Hn Hlu Hlv Hu Hv. pose proof (hom_ok_le m n Hn) as H. unfold hom_ok in H.
+  assert (forall w, length w <= 2 -> Forall (fun l => fst l < n) w -> In w (all_words (all_ops n) 2)) as Hin.
+  { intros w Hl Hw. apply in_all_words; [assumption|]. eapply Forall_impl; [|exact Hw]. intros l; apply in_all_ops. }
+  rewrite forallb_forall in H. specialize (H u (Hin u Hlu Hu)).
+  rewrite forallb_forall in H. specialize (H v (Hin v Hlv Hv)).
+  unfold hom_pair_ok in H.
+  destruct (fw_image m n (fmul u v)) as [X|]; [|discriminate].
+  destruct (fw_image m n u) as [A|]; [|discriminate]. destruct (fw_image m n v) as [B|]; [|discriminate].
+  exists X, A, B. split; [reflexivity|]. split; [reflexivity|]. split; [reflexivity|]. apply sent_eqb_sound. exact H.
+Qed.
+
+(* unitary equivalence on the generators: explicit CNOT networks *)
+Lemma equiv_ok_le6 : forall n, n <= 6 ->
+  jw_pt_equiv_ok n = true /\ jw_bk_equiv_ok n = true /\ cnot_unitary_ok n = true.
+Proof.
+  intros n H. do 7 (destruct n as [|n]; [vm_compute; repeat split; reflexivity|]); lia.
+Qed.
+
+Lemma jw_pt_equiv_bounded : forall n l, n <= 6 -> fst l < n ->
+  exists B, pt_op n l = Some B /\ sequiv (to_parity n (jw_op n l)) B.
+Proof.
+  intros n l Hn Hl. destruct (equiv_ok_le6 n Hn) as [H _]. unfold jw_pt_equiv_ok in H.
+  apply andb_true_iff in H. destruct H as [H _]. rewrite forallb_forall in H.
+  specialize (H l (in_all_ops n l Hl)). destruct (pt_op n l) as [B|]; [|discriminate].
+  exists B. split; [reflexivity|]. apply sent_eqb_sound. exact H.
+Qed.
+
+Lemma jw_bk_equiv_bounded : forall n l, n <= 6 -> fst l < n ->
+  exists B, bk_op n l = Some B /\ sequiv (to_bk n (jw_op n l)) B.
+Proof.
+  intros n l Hn Hl. destruct (equiv_ok_le6 n Hn) as [_ [H _]]. unfold jw_bk_equiv_ok in H.
+  rewrite forallb_forall in H.
+  specialize (H l (in_all_ops n l Hl)). destruct (bk_op n l) as [B|]; [|discriminate].
+  exists B. split; [reflexivity|]. apply sent_eqb_sound. exact H.
+Qed.
+
+Lemma cnot_unitary_bounded : forall n i j, n <= 6 -> i < j -> j < n ->
+  sequiv (smul (cnot n i j) (sadj (cnot n i j))) (ident n).
+Proof.
+  intros n i j Hn Hij Hj. destruct (equiv_ok_le6 n Hn) as [_ [_ H]]. unfold cnot_unitary_ok in H.
+  rewrite forallb_forall in H. specialize (H j ltac:(apply in_seq; lia)).
+  rewrite forallb_forall in H. specialize (H i ltac:(apply in_seq; lia)).
+  apply sent_eqb_sound. exact H.
+Qed.
